@@ -1,7 +1,16 @@
 #!/bin/bash
-cd /verif
+# Full validation of the framework: unchanged-tree sweeps, every seeded change, the false-alarm test.
+# Runs in the directory it is started from (so also in a `vp run --with-repo` snapshot, with
+# VERIF_REPO=$VP_RUN_REPO); takes 2-3 hours.
+cd "$(dirname "$0")/.."
+mkdir -p build
+./check setup > build/setup.log 2>&1
 tools/sweep.sh quick 1 2 3 > build/sweep_q123.log 2>&1
-(for d in seeded/C*; do m=$(basename $d); python3 tools/mutants.py run $m 2>&1 | grep -v "^WARNING" | tail -1 | cut -c1-140; done) > build/runall.log 2>&1
+(for d in seeded/C*; do m=$(basename $d); python3 tools/mutants.py run $m 2>&1 | grep -v "^WARNING" | tail -1 | cut -c1-160; done) > build/runall.log 2>&1
 tools/rewrites.sh build/rewrites.log > /dev/null 2>&1
 tools/sweep.sh thorough 1 > build/thorough1.log 2>&1
+echo "== sweep quick"; grep -c "rc=0" build/sweep_q123.log; grep -v "rc=0" build/sweep_q123.log
+echo "== mutants"; grep -c "exit=1" build/runall.log; grep -v "exit=1" build/runall.log
+echo "== rewrites"; grep -c "exit=0 violations=0" build/rewrites.log; grep -v "exit=0 violations=0" build/rewrites.log
+echo "== thorough"; grep -c "rc=0" build/thorough1.log; grep -v "rc=0" build/thorough1.log
 echo finished > build/master.done
